@@ -170,6 +170,14 @@ def run(ctx: Ctx) -> int:
                             ("indefinite", None), ("nonminimal", None), ("drop", None), ("dup", None), ("high_tag", b"\x1f")):
                 add(tg, blobfuzz.render(tree, (path, op, arg), trailing), f"node{path}:{op}", meter=(len(path) % 2 == 0))
                 ctx.distinct((tg.mode, path, op, arg))
+            # optional members that are normally absent, and unexpected ones, in front of every node; the node as a deeply
+            # nested constructed encoding
+            for extra in (b"\x18\x00", b"\x18\x0f20230101000000Z", b"\x05\x00", b"\x04\x00", b"\x30\x00", b"\xa0\x00", b"\x02\x01\x00", b"\x0c\x00"):
+                add(tg, blobfuzz.render(tree, (path, "insert_before", extra), trailing), f"node{path}:insert", meter=(len(extra) % 2 == 0))
+                ctx.distinct((tg.mode, path, "insert", extra))
+            for depth in (40, 1500):
+                add(tg, blobfuzz.render(tree, (path, "deep_nest", depth), trailing), f"node{path}:deep_nest", meter=False)
+                ctx.distinct((tg.mode, path, "deep_nest", depth))
             # the node under every other tag of its class: the other CHOICE alternatives of CMS ([0]..[6]: other RecipientInfo
             # kinds, optional members that are normally absent) and the other universal types
             tag0 = blobfuzz.node_at(tree, path)[0]
